@@ -25,6 +25,7 @@ OSTR = Opt(RUNNER)
 def mem_scan_contracts(T: Types, reg: Registry, ctx):
     mem = c01_mem.contracts(T, reg, ctx, pid=PID)   # registers the MemOrchestrator shape (+ R / O invariants)
     shape = reg.shapes["MemOrchestrator"]
+    shape.auto_fields = True     # further bookkeeping attributes of the class are "don't care" fields of their annotated type
     reg.shapes["App"].fields.setdefault("conf", ObjT("AppConf"))
     rec_t = shape.fields["invocation_status_record"]
     hb_t = shape.fields["runner_last_heartbeat"]
@@ -77,9 +78,11 @@ def mem_scan_contracts(T: Types, reg: Registry, ctx):
         generator=ID, frame=[],
         loops={0: LoopSpec(modifies=[], inv=[
             ("yielded=dead-owner-ones-among-the-scanned", lambda c: c.out_set == dead_owner(c, c.x("seen"))),
-            ("active-set-is-heartbeat-within-timeout", lambda c: z3.ForAll([z3.Const("ar", STR.sort())], z3.Select(c.v("active_runner_ids"), z3.Const("ar", STR.sort())) == z3.And(
-                hb_t.opt.is_some(z3.Select(c.f("runner_last_heartbeat"), z3.Const("ar", STR.sort()))),
-                hb_t.opt.val(z3.Select(c.f("runner_last_heartbeat"), z3.Const("ar", STR.sort()))) >= now(c) - c.arg("timeout_seconds")))),
+            # helper fact about the local the current code computes first (stated only while that local exists: the contract itself does not depend on it)
+            ("active-set-is-heartbeat-within-timeout", lambda c: z3.BoolVal(True) if not c.has_local("active_runner_ids") else z3.ForAll(
+                [z3.Const("ar", STR.sort())], z3.Select(c.v("active_runner_ids"), z3.Const("ar", STR.sort())) == z3.And(
+                    hb_t.opt.is_some(z3.Select(c.f("runner_last_heartbeat"), z3.Const("ar", STR.sort()))),
+                    hb_t.opt.val(z3.Select(c.f("runner_last_heartbeat"), z3.Const("ar", STR.sort()))) >= now(c) - c.arg("timeout_seconds")))),
         ])},
         cases=[Case("scan", ensures=[
             ("yields-exactly-RUNNING-under-an-owner-without-a-fresh-heartbeat", lambda c: c.out_set == dead_owner(c)),
@@ -206,7 +209,7 @@ def recovery_boundaries(ctx: RunCtx) -> BoundedResult:
     import time as _time
     from datetime import UTC, datetime
     from pynenc.invocation.status import InvocationStatus as S
-    from .realapp import force_status, new_invocation, real_app
+    from .realapp import force_status, new_invocation, real_app, runner_ctx
     res = BoundedResult("recovery_boundaries", "both real backends: PENDING ages {limit-1s, limit+1s} and RUNNING owners with heartbeat ages "
                         "{timeout-2s, timeout+2s, never} x child-reported heartbeats, scans compared with the spec; then the real recovery task functions")
     n = 0
@@ -242,6 +245,56 @@ def recovery_boundaries(ctx: RunCtx) -> BoundedResult:
                 if got != expect:
                     res.failures.append({"what": f"{backend}: {kind} scan {'selects' if got else 'misses'} an invocation that is {'stuck' if expect else 'live'}",
                                          "finding_key": f"{backend}:{kind}-scan"})
+        # (a) a runner that was silent past the timeout and then heartbeats again is alive again: its new RUNNING work is not taken
+        # (b) a stuck set larger than any page: ONE recovery pass over it (consuming the scan while re-queueing, as the core task does) takes all of it
+        import pynenc.orchestrator.mem_orchestrator as mo
+        import pynenc.orchestrator.sqlite_orchestrator as so
+        import pynenc.orchestrator.base_orchestrator as bo
+        clock = [1_800_000_000.0]
+        saved = [(m, m.time) for m in (mo, so, bo) if hasattr(m, "time")]
+        for m, _f in saved:
+            m.time = lambda: clock[0]
+        try:
+            with real_app(backend, max_pending_seconds=100.0, runner_considered_dead_after_minutes=1.0) as app:
+                orch = app.orchestrator
+                ctx_rec = runner_ctx("recovery-runner")
+                orch.register_runner_heartbeats(["r-revived"])
+                a = new_invocation(app)
+                force_status(app, a.invocation_id, S.RUNNING, "r-revived")
+                clock[0] += 120.0
+                first = set(orch.get_running_invocations_for_recovery())
+                orch.register_runner_heartbeats(["r-revived"])               # the runner is back (its own or a parent-reported heartbeat)
+                b = new_invocation(app)
+                force_status(app, b.invocation_id, S.RUNNING, "r-revived")
+                clock[0] += 5.0
+                second = set(orch.get_running_invocations_for_recovery())
+                n += 1
+                if a.invocation_id not in first or b.invocation_id in second or a.invocation_id in second:
+                    res.failures.append({"what": f"{backend}: runner silent for 120 s then alive again: first scan {'takes' if a.invocation_id in first else 'misses'} its old work, "
+                                                 f"scan after the new heartbeat {'takes' if (b.invocation_id in second or a.invocation_id in second) else 'leaves'} work of the live runner",
+                                         "finding_key": f"{backend}:revived-runner"})
+            with real_app(backend, max_pending_seconds=100.0, runner_considered_dead_after_minutes=1.0) as app:
+                orch = app.orchestrator
+                ctx_rec = runner_ctx("recovery-runner")
+                big = 130
+                stuck_p = [new_invocation(app) for _ in range(big)]
+                stuck_r = [new_invocation(app) for _ in range(big)]
+                for inv in stuck_p:
+                    force_status(app, inv.invocation_id, S.PENDING, "r-gone", ts=datetime.fromtimestamp(clock[0] - 500.0, UTC))
+                for inv in stuck_r:
+                    force_status(app, inv.invocation_id, S.RUNNING, "r-gone")
+                for scan, target in ((orch.get_pending_invocations_for_recovery, S.PENDING_RECOVERY), (orch.get_running_invocations_for_recovery, S.RUNNING_RECOVERY)):
+                    for iid in scan():                                        # consume lazily while moving each id on, like the core tasks
+                        orch.set_invocation_status(iid, target, ctx_rec)
+                n += 1
+                left_p = sum(1 for inv in stuck_p if orch.get_invocation_status(inv.invocation_id) == S.PENDING)
+                left_r = sum(1 for inv in stuck_r if orch.get_invocation_status(inv.invocation_id) == S.RUNNING)
+                if left_p or left_r:
+                    res.failures.append({"what": f"{backend}: one recovery pass over {big} stuck PENDING and {big} stuck RUNNING invocations leaves {left_p} PENDING and {left_r} RUNNING "
+                                                 f"under the dead runner", "finding_key": f"{backend}:large-stuck-set"})
+        finally:
+            for m, f in saved:
+                m.time = f
     res.cases = n
     res.distinct = n
     res.samples = [{"pending_age_s": 101.0, "limit_s": 100.0, "expected": "recovered"}]
